@@ -5,6 +5,7 @@ import (
 	"encoding/json"
 	"fmt"
 	"math/rand/v2"
+	"reflect"
 	"runtime"
 	"strings"
 	"sync/atomic"
@@ -556,7 +557,14 @@ func c11Adversarial(r *mon.Run, key *world.Key, jr *rand.Rand, idx int) {
 		})
 		forged := map[string]any{"Nu": base64.StdEncoding.EncodeToString(rev.Accs[0].Nu.Bytes()), "Index": json.Number("7"), "Time": json.Number("99"),
 			"EventHash": rev.Accs[0].EventHash.String()}
-		for _, name := range []string{"acc", "Acc", "accumulator", "Accumulator", "nu", "Nu"} {
+		names := []string{"acc", "Acc", "accumulator", "Accumulator", "nu", "Nu"}
+		// whatever JSON name the decoded-accumulator cache field currently has (it must have none: `json:"-"`)
+		if f, ok := reflect.TypeOf(revocation.SignedAccumulator{}).FieldByName("Accumulator"); ok {
+			if tag := strings.Split(f.Tag.Get("json"), ",")[0]; tag != "-" && tag != "" {
+				names = append(names, tag)
+			}
+		}
+		for _, name := range names {
 			p := jpath{0, "nonrev_proof", "sacc", name}
 			muts = append(muts, jmut{"wire inject sacc." + name, "", marshalTree(setAt(tree, p, forged, false))})
 		}
